@@ -13,6 +13,45 @@ Peers/PeersProofs.vos Peers/PeersProofs.vok Peers/PeersProofs.required_vos: Peer
 Headers/Tree.vo Headers/Tree.glob Headers/Tree.v.beautified Headers/Tree.required_vo: Headers/Tree.v Base/Prelude.vo Base/Compact.vo
 Headers/Tree.vio: Headers/Tree.v Base/Prelude.vio Base/Compact.vio
 Headers/Tree.vos Headers/Tree.vok Headers/Tree.required_vos: Headers/Tree.v Base/Prelude.vos Base/Compact.vos
+Headers/TreeBasics.vo Headers/TreeBasics.glob Headers/TreeBasics.v.beautified Headers/TreeBasics.required_vo: Headers/TreeBasics.v Base/Prelude.vo Base/Compact.vo Headers/Tree.vo
+Headers/TreeBasics.vio: Headers/TreeBasics.v Base/Prelude.vio Base/Compact.vio Headers/Tree.vio
+Headers/TreeBasics.vos Headers/TreeBasics.vok Headers/TreeBasics.required_vos: Headers/TreeBasics.v Base/Prelude.vos Base/Compact.vos Headers/Tree.vos
+Headers/TreeInv.vo Headers/TreeInv.glob Headers/TreeInv.v.beautified Headers/TreeInv.required_vo: Headers/TreeInv.v Base/Prelude.vo Base/Compact.vo Headers/Tree.vo Headers/TreeBasics.vo
+Headers/TreeInv.vio: Headers/TreeInv.v Base/Prelude.vio Base/Compact.vio Headers/Tree.vio Headers/TreeBasics.vio
+Headers/TreeInv.vos Headers/TreeInv.vok Headers/TreeInv.required_vos: Headers/TreeInv.v Base/Prelude.vos Base/Compact.vos Headers/Tree.vos Headers/TreeBasics.vos
+Headers/TreeSteps.vo Headers/TreeSteps.glob Headers/TreeSteps.v.beautified Headers/TreeSteps.required_vo: Headers/TreeSteps.v Base/Prelude.vo Base/Compact.vo Headers/Tree.vo Headers/TreeBasics.vo Headers/TreeInv.vo
+Headers/TreeSteps.vio: Headers/TreeSteps.v Base/Prelude.vio Base/Compact.vio Headers/Tree.vio Headers/TreeBasics.vio Headers/TreeInv.vio
+Headers/TreeSteps.vos Headers/TreeSteps.vok Headers/TreeSteps.required_vos: Headers/TreeSteps.v Base/Prelude.vos Base/Compact.vos Headers/Tree.vos Headers/TreeBasics.vos Headers/TreeInv.vos
+Headers/TreeStream.vo Headers/TreeStream.glob Headers/TreeStream.v.beautified Headers/TreeStream.required_vo: Headers/TreeStream.v Base/Prelude.vo Base/Compact.vo Headers/Tree.vo Headers/TreeBasics.vo Headers/TreeInv.vo Headers/TreeSteps.vo
+Headers/TreeStream.vio: Headers/TreeStream.v Base/Prelude.vio Base/Compact.vio Headers/Tree.vio Headers/TreeBasics.vio Headers/TreeInv.vio Headers/TreeSteps.vio
+Headers/TreeStream.vos Headers/TreeStream.vok Headers/TreeStream.required_vos: Headers/TreeStream.v Base/Prelude.vos Base/Compact.vos Headers/Tree.vos Headers/TreeBasics.vos Headers/TreeInv.vos Headers/TreeSteps.vos
+Headers/TreeProps.vo Headers/TreeProps.glob Headers/TreeProps.v.beautified Headers/TreeProps.required_vo: Headers/TreeProps.v Base/Prelude.vo Base/Compact.vo Headers/Tree.vo Headers/TreeBasics.vo Headers/TreeInv.vo Headers/TreeSteps.vo Headers/TreeStream.vo
+Headers/TreeProps.vio: Headers/TreeProps.v Base/Prelude.vio Base/Compact.vio Headers/Tree.vio Headers/TreeBasics.vio Headers/TreeInv.vio Headers/TreeSteps.vio Headers/TreeStream.vio
+Headers/TreeProps.vos Headers/TreeProps.vok Headers/TreeProps.required_vos: Headers/TreeProps.v Base/Prelude.vos Base/Compact.vos Headers/Tree.vos Headers/TreeBasics.vos Headers/TreeInv.vos Headers/TreeSteps.vos Headers/TreeStream.vos
+Headers/TreeExample.vo Headers/TreeExample.glob Headers/TreeExample.v.beautified Headers/TreeExample.required_vo: Headers/TreeExample.v Base/Prelude.vo Base/Compact.vo Headers/Tree.vo Headers/TreeBasics.vo Headers/TreeInv.vo Headers/TreeSteps.vo Headers/TreeProps.vo
+Headers/TreeExample.vio: Headers/TreeExample.v Base/Prelude.vio Base/Compact.vio Headers/Tree.vio Headers/TreeBasics.vio Headers/TreeInv.vio Headers/TreeSteps.vio Headers/TreeProps.vio
+Headers/TreeExample.vos Headers/TreeExample.vok Headers/TreeExample.required_vos: Headers/TreeExample.v Base/Prelude.vos Base/Compact.vos Headers/Tree.vos Headers/TreeBasics.vos Headers/TreeInv.vos Headers/TreeSteps.vos Headers/TreeProps.vos
 Props/C20.vo Props/C20.glob Props/C20.v.beautified Props/C20.required_vo: Props/C20.v Base/Prelude.vo Peers/Peers.vo Peers/PeersProofs.vo
 Props/C20.vio: Props/C20.v Base/Prelude.vio Peers/Peers.vio Peers/PeersProofs.vio
 Props/C20.vos Props/C20.vok Props/C20.required_vos: Props/C20.v Base/Prelude.vos Peers/Peers.vos Peers/PeersProofs.vos
+Props/C01.vo Props/C01.glob Props/C01.v.beautified Props/C01.required_vo: Props/C01.v Base/Prelude.vo Base/Compact.vo Headers/Tree.vo Headers/TreeBasics.vo Headers/TreeInv.vo Headers/TreeSteps.vo Headers/TreeStream.vo Headers/TreeProps.vo Headers/TreeExample.vo
+Props/C01.vio: Props/C01.v Base/Prelude.vio Base/Compact.vio Headers/Tree.vio Headers/TreeBasics.vio Headers/TreeInv.vio Headers/TreeSteps.vio Headers/TreeStream.vio Headers/TreeProps.vio Headers/TreeExample.vio
+Props/C01.vos Props/C01.vok Props/C01.required_vos: Props/C01.v Base/Prelude.vos Base/Compact.vos Headers/Tree.vos Headers/TreeBasics.vos Headers/TreeInv.vos Headers/TreeSteps.vos Headers/TreeStream.vos Headers/TreeProps.vos Headers/TreeExample.vos
+Props/C07.vo Props/C07.glob Props/C07.v.beautified Props/C07.required_vo: Props/C07.v Base/Prelude.vo Base/Compact.vo Headers/Tree.vo Headers/TreeBasics.vo Headers/TreeInv.vo Headers/TreeSteps.vo Headers/TreeStream.vo Headers/TreeProps.vo Headers/TreeExample.vo
+Props/C07.vio: Props/C07.v Base/Prelude.vio Base/Compact.vio Headers/Tree.vio Headers/TreeBasics.vio Headers/TreeInv.vio Headers/TreeSteps.vio Headers/TreeStream.vio Headers/TreeProps.vio Headers/TreeExample.vio
+Props/C07.vos Props/C07.vok Props/C07.required_vos: Props/C07.v Base/Prelude.vos Base/Compact.vos Headers/Tree.vos Headers/TreeBasics.vos Headers/TreeInv.vos Headers/TreeSteps.vos Headers/TreeStream.vos Headers/TreeProps.vos Headers/TreeExample.vos
+Props/C08.vo Props/C08.glob Props/C08.v.beautified Props/C08.required_vo: Props/C08.v Base/Prelude.vo Base/Compact.vo Headers/Tree.vo Headers/TreeBasics.vo Headers/TreeInv.vo Headers/TreeSteps.vo Headers/TreeStream.vo Headers/TreeProps.vo Headers/TreeExample.vo
+Props/C08.vio: Props/C08.v Base/Prelude.vio Base/Compact.vio Headers/Tree.vio Headers/TreeBasics.vio Headers/TreeInv.vio Headers/TreeSteps.vio Headers/TreeStream.vio Headers/TreeProps.vio Headers/TreeExample.vio
+Props/C08.vos Props/C08.vok Props/C08.required_vos: Props/C08.v Base/Prelude.vos Base/Compact.vos Headers/Tree.vos Headers/TreeBasics.vos Headers/TreeInv.vos Headers/TreeSteps.vos Headers/TreeStream.vos Headers/TreeProps.vos Headers/TreeExample.vos
+Props/C09.vo Props/C09.glob Props/C09.v.beautified Props/C09.required_vo: Props/C09.v Base/Prelude.vo Base/Compact.vo Headers/Tree.vo Headers/TreeBasics.vo Headers/TreeInv.vo Headers/TreeSteps.vo Headers/TreeStream.vo Headers/TreeProps.vo Headers/TreeExample.vo
+Props/C09.vio: Props/C09.v Base/Prelude.vio Base/Compact.vio Headers/Tree.vio Headers/TreeBasics.vio Headers/TreeInv.vio Headers/TreeSteps.vio Headers/TreeStream.vio Headers/TreeProps.vio Headers/TreeExample.vio
+Props/C09.vos Props/C09.vok Props/C09.required_vos: Props/C09.v Base/Prelude.vos Base/Compact.vos Headers/Tree.vos Headers/TreeBasics.vos Headers/TreeInv.vos Headers/TreeSteps.vos Headers/TreeStream.vos Headers/TreeProps.vos Headers/TreeExample.vos
+Props/C10.vo Props/C10.glob Props/C10.v.beautified Props/C10.required_vo: Props/C10.v Base/Prelude.vo Base/Compact.vo Headers/Tree.vo Headers/TreeBasics.vo Headers/TreeInv.vo Headers/TreeSteps.vo Headers/TreeStream.vo Headers/TreeProps.vo Headers/TreeExample.vo
+Props/C10.vio: Props/C10.v Base/Prelude.vio Base/Compact.vio Headers/Tree.vio Headers/TreeBasics.vio Headers/TreeInv.vio Headers/TreeSteps.vio Headers/TreeStream.vio Headers/TreeProps.vio Headers/TreeExample.vio
+Props/C10.vos Props/C10.vok Props/C10.required_vos: Props/C10.v Base/Prelude.vos Base/Compact.vos Headers/Tree.vos Headers/TreeBasics.vos Headers/TreeInv.vos Headers/TreeSteps.vos Headers/TreeStream.vos Headers/TreeProps.vos Headers/TreeExample.vos
+Props/C11.vo Props/C11.glob Props/C11.v.beautified Props/C11.required_vo: Props/C11.v Base/Prelude.vo Base/Compact.vo Headers/Tree.vo Headers/TreeBasics.vo Headers/TreeInv.vo Headers/TreeSteps.vo Headers/TreeStream.vo Headers/TreeProps.vo Headers/TreeExample.vo
+Props/C11.vio: Props/C11.v Base/Prelude.vio Base/Compact.vio Headers/Tree.vio Headers/TreeBasics.vio Headers/TreeInv.vio Headers/TreeSteps.vio Headers/TreeStream.vio Headers/TreeProps.vio Headers/TreeExample.vio
+Props/C11.vos Props/C11.vok Props/C11.required_vos: Props/C11.v Base/Prelude.vos Base/Compact.vos Headers/Tree.vos Headers/TreeBasics.vos Headers/TreeInv.vos Headers/TreeSteps.vos Headers/TreeStream.vos Headers/TreeProps.vos Headers/TreeExample.vos
+Props/C17.vo Props/C17.glob Props/C17.v.beautified Props/C17.required_vo: Props/C17.v Base/Prelude.vo Base/Compact.vo Headers/Tree.vo Headers/TreeBasics.vo Headers/TreeInv.vo Headers/TreeSteps.vo Headers/TreeStream.vo Headers/TreeProps.vo Headers/TreeExample.vo
+Props/C17.vio: Props/C17.v Base/Prelude.vio Base/Compact.vio Headers/Tree.vio Headers/TreeBasics.vio Headers/TreeInv.vio Headers/TreeSteps.vio Headers/TreeStream.vio Headers/TreeProps.vio Headers/TreeExample.vio
+Props/C17.vos Props/C17.vok Props/C17.required_vos: Props/C17.v Base/Prelude.vos Base/Compact.vos Headers/Tree.vos Headers/TreeBasics.vos Headers/TreeInv.vos Headers/TreeSteps.vos Headers/TreeStream.vos Headers/TreeProps.vos Headers/TreeExample.vos
